@@ -117,8 +117,17 @@ def finding_matches(entry, key):
     return all(key.get(k) == v for k, v in m.items())
 
 
+def quiet_gc():
+    """leftover coroutines/generators of a finished run are finalised by the GC outside of any loop,
+    which only produces noise ("Exception ignored in ...", "never awaited")"""
+    import warnings
+    sys.unraisablehook = lambda *a, **k: None
+    warnings.filterwarnings('ignore', category=RuntimeWarning)
+
+
 def import_usim():
     """import the implementation from the repository's working tree"""
+    quiet_gc()
     if REPO not in sys.path:
         sys.path.insert(0, REPO)
     import usim  # noqa: F401
